@@ -131,7 +131,40 @@ def make_world(tag, seq, opt):
 EVIDENCE = dict(rule='all 25 ordered pairs and all 125 ordered triples of the five entry points x 4 option sets, plus random sequences up to length 8; each sequence is executed through one shared Config and through a fresh Config per call and the two traces are compared; non-trivial = sequences producing at least one write')
 
 
+def field_worlds():
+    """white-box: the fields of a Config (cfgfields) before and after every call made through it - with a relative, the
+    default and the empty snapshot directory, in an ordinary build (CI environment: nothing is written next to the
+    harness) and in the library's -trimpath mode (relative directories are relative to the working directory, which
+    the test changes half way)"""
+    worlds = []
+    n = 0
+    for trim, ci in ((0, True), (1, True), (1, False)):
+        for d, fn, ext in itertools.product(['-', '=', hx('rel/dir'), hx('./a/../b')], ['-', hx('custom')], ['-', hx('.txt')]):
+            n += 1
+            w = World('c12f-%d' % n)
+            w.add(mode_line(ci, ''))
+            if trim:
+                w.add('trimpath 1')
+            w.add('cfgrel 1 %s %s %s' % (d, fn, ext))
+            ref = w.add('cfgfields 1')
+
+            def same(line, raw, ww, ref=ref):
+                if raw != ww.impl[ref]:
+                    return 'the Config changed: %s, it was built as %s' % (raw, ww.impl[ref])
+                return None
+            w.add('begin 1 %s' % hx(b'TestFields'))
+            for i, kind in enumerate(KINDS + KINDS[:2]):
+                if trim and i == len(KINDS):
+                    w.add('chdir %s' % hx('elsewhere'))
+                w.add(call(kind, 1, 1, i))
+                w.add('cfgfields 1', ('config-fields-unchanged', same))
+            w.add('end 1')
+            worlds.append(w)
+    return worlds
+
+
 def run(ctx):
+    run_suite(ctx, 'config.fields', field_worlds(), known=None, use_model=False)
     worlds = []
     n = 0
     for opt in OPTS:
